@@ -41,33 +41,41 @@ Definition task_here (c : coll) (s : string) : option taskinfo :=
 
 (** Reference resolution of a canonical name given as segments.  Returns the
     task and the configurations of the collections from the root down to the
-    collection that holds the task. *)
+    collection that holds the task.  [down k rest] = resolution of [rest]
+    inside the sub-collection named [k], if there is one. *)
+Definition ref_push (cfg : dict) (r : option (taskinfo * list dict)) :=
+  match r with Some (t, cfgs) => Some (t, cfg :: cfgs) | None => None end.
+
+Definition ref_step (down : string -> list string -> option (option (taskinfo * list dict)))
+           (here : string -> option taskinfo) (dflt : option string) (cfg : dict)
+           (segs : list string) : option (taskinfo * list dict) :=
+  let last (s : string) :=
+    match down s [] with
+    | Some r => ref_push cfg r              (* a collection name: its default, recursively *)
+    | None => match here s with
+              | Some t => Some (t, [cfg])
+              | None => None
+              end
+    end in
+  match segs with
+  | [] => match dflt with Some d => last d | None => None end
+  | [s] => last s
+  | s :: rest => match down s rest with Some r => ref_push cfg r | None => None end
+  end.
+
 Fixpoint ref_path (c : coll) (segs : list string) {struct c}
   : option (taskinfo * list dict) :=
   match c with
   | Coll _ tasks aliases subs dflt _ cfg =>
-      let down :=
-        fix go (l : list (string * coll)) (k : string) (rest : list string) {struct l}
-          : option (option (taskinfo * list dict)) :=
-          match l with
-          | [] => None
-          | (k', sc) :: l' => if String.eqb k k' then Some (ref_path sc rest) else go l' k rest
-          end in
-      let push (r : option (taskinfo * list dict)) :=
-        match r with Some (t, cfgs) => Some (t, cfg :: cfgs) | None => None end in
-      let last (s : string) :=
-        match down subs s [] with
-        | Some r => push r                      (* a collection name: its default, recursively *)
-        | None => match task_here c s with
-                  | Some t => Some (t, [cfg])
-                  | None => None
-                  end
-        end in
-      match segs with
-      | [] => match dflt with Some d => last d | None => None end
-      | [s] => last s
-      | s :: rest => match down subs s rest with Some r => push r | None => None end
-      end
+      ref_step
+        (fun k rest =>
+           (fix go (l : list (string * coll)) {struct l}
+              : option (option (taskinfo * list dict)) :=
+              match l with
+              | [] => None
+              | (k', sc) :: l' => if String.eqb k k' then Some (ref_path sc rest) else go l'
+              end) subs)
+        (task_here c) dflt cfg segs
   end.
 
 Definition segs_of (name : string) : list string :=
